@@ -5,7 +5,7 @@ ASSUMPTIONS = C16.ASSUMPTIONS[:1] + ["final generations of the real optimizers a
 
 
 def run(ctx):
-    ctx.prove(["PvModel.Props.C03", "PvModel.Props.R16"])
+    ctx.prove(["PvModel.Props.C03", "PvModel.Props.R16", "PvModel.Props.R00"])
     C16.run_suite(ctx, only_best=True)
     C04.run_suite(ctx, "C03")
     # final generations of real optimizers, serial and pooled (the pool returns the population in completion order)
